@@ -58,6 +58,8 @@ def diff_file_vs_object(dec, snap):
     if dec['evtime'] != h['evtime']: bad.append('hdr.event_times')
     if dec['evdisp'] != [x & 0xFFFF for x in h['evdisp']]: bad.append('hdr.event_display')
     if dec['evlab'] != [x[:4] for x in h['evlab']]: bad.append('hdr.event_labels')
+    for k, nm in (('keylab', 'hdr.key_labels_present'), ('keyblk', 'hdr.key_labels_block'), ('four', 'hdr.four_char_labels')):
+        if k in dec and dec[k] != h[k] & 0xFFFF: bad.append('%s object=%r file=%r' % (nm, h[k], dec[k]))
     fo = frames_from_dump(snap)
     fd = [([tuple(p) for p in pts], an) for pts, an in dec['frames']]
     fo2 = [([tuple(p) for p in pts], an) for pts, an in fo]
